@@ -70,6 +70,31 @@ async fn touch_peer_last_seen(peers: &RwLock<HashMap<String, PeerInfo>>, peer_id
     }
 }
 
+/// Removes a pending request from the table when the owning `send_request`
+/// future completes or is cancelled, so that dropped futures cannot leak entries
+/// and wedge the table at `MAX_ACTIVE_REQUESTS`.
+struct PendingRequestGuard {
+    requests: Arc<RwLock<HashMap<String, PendingRequest>>>,
+    message_id: String,
+}
+
+impl Drop for PendingRequestGuard {
+    fn drop(&mut self) {
+        if let Ok(mut reqs) = self.requests.try_write() {
+            reqs.remove(&self.message_id);
+            return;
+        }
+        // Lock is held elsewhere right now: finish the removal on the runtime.
+        if let Ok(handle) = tokio::runtime::Handle::try_current() {
+            let requests = Arc::clone(&self.requests);
+            let message_id = std::mem::take(&mut self.message_id);
+            handle.spawn(async move {
+                requests.write().await.remove(&message_id);
+            });
+        }
+    }
+}
+
 /// Configuration for transport initialization, derived from [`NodeConfig`](crate::network::NodeConfig).
 pub struct TransportConfig {
     /// Application-level peer ID (pre-computed, possibly random).
@@ -717,6 +742,13 @@ impl TransportHandle {
                 },
             );
         }
+
+        // Remove the entry when this future completes *or is dropped*: a cancelled
+        // request must not leave its slot occupied for ever.
+        let _pending_guard = PendingRequestGuard {
+            requests: Arc::clone(&self.active_requests),
+            message_id: message_id.clone(),
+        };
 
         let envelope = RequestResponseEnvelope {
             message_id: message_id.clone(),
